@@ -110,8 +110,9 @@ class Kind:
 class Obj(Kind):
     """Instance of ``cls`` (or of a subclass unless exact)."""
 
-    def __init__(self, cls, exact=False, attrs=None, fresh=False, proper=False):
+    def __init__(self, cls, exact=False, attrs=None, fresh=False, proper=False, generated=False):
         self.cls = cls
+        self.generated = generated    # instance of a generated (python_types) subclass of cls
         self.exact = exact
         self.proper = proper          # proper subclasses only (cls itself is abstract)
         self.attrs = attrs or {}      # attribute -> Kind, for classes without __slots__
